@@ -41,7 +41,7 @@ OBLIGATIONS = {
             "c01_session_prefix", "c01_session_ghosts", "c01_session_message_mode",
             "c01_session_write_coherent", "c01_session_read_coherent", "c01_session_total"],
     "C04": ["c04_write_admission", "c04_session_occupancy", "c04_session_flush_when_full",
-            "c04_session_flush_keeps_pending"],
+            "c04_session_flush_keeps_pending", "c04_session_close"],
 }
 
 # monitor keys by the property whose text they are written from
@@ -86,7 +86,7 @@ LEVEL_TEXT = {
             "histories of real UDPSessions on the extracted write_full/read_full."),
     "C04": ("Session clause, machine-checked: a pass of WriteBuffers admits only in a state with WaitSnd < snd_wnd, otherwise returns the session "
             "unchanged without a Send call or datagram; after an admitted write WaitSnd' <= snd_wnd - 1 + sum ceil(len_i/mss) (equality in message "
-            "mode); a write whose result reaches the window flushes in the same pass; flush never changes the pending payload list."),
+            "mode); a write whose result reaches the window flushes in the same pass; flush never changes the pending payload list; Close is one more full flush of the core (close_full), bound by the core's admission rule (c04_session_close), replayed on real sessions closed after a timeout loss."),
 }
 
 
